@@ -11,6 +11,8 @@ CLAIMED['C09'] = dict(text='Solver verdict with the five base units as arbitrary
              note='Base-unit contract of numericalunits.reset_units stubbed as arbitrary positive reals; real arithmetic with relative tolerance 1e-9 for the clause "to rounding"; exponent table of the oracle measured from concrete numericalunits runs.', ref='§5 C09')
 CLAIMED['C01'] = dict(text='Solver verdict over all LAMMPS-form cells (lengths in [1,100], tilts 0 or >=1e-3, any origin), all (a,b,c,cosines) with a realisability margin, and all right-handed general 3x3 cells with det>=1: every pair of parameter sets rebuilds the same vectors/origin, reported lengths/angles/volume are those of the vectors, cartesian<->relative are mutual inverses for shapes (3,),(2,3),(2,2,3) list and array input, reciprocal vectors are dual also after re-setting the cell (cache invalidation), inside() <=> relative coordinates in [0,1]/(0,1), Plane.below/above, the seven family constructors.',
              note='Real arithmetic; dead-zone assumption for the near-zero threshold; lemma L1 cos(arccos x)=x; a few rational-function obligations may stay unknown within the quick time-out and are reported as inconclusive.', ref='§5 C01')
+CLAIMED['C02'] = dict(text='dvect.pyx/dmag.pyx re-translated from source and executed symbolically: for ALL LAMMPS-form cells, any origin, any two points and all 8 periodicity settings the result differs from the direct separation by a lattice vector with shifts in {-1,0,1} along periodic directions only, is not longer than any of the (up to 27) candidates, dmag^2 = |dvect|^2; broadcast shapes; System.dvect/dmag dispatch; displacement() atom by atom under the chosen reference cell; nearest-image clause for orthogonal cells through a solver-proved finite search radius. Translator validated against the freshly compiled extension each run.',
+             note='Real arithmetic (ties in mag_test < mag_d are float matters); dead-zone assumption on tilts; tilted-cell half-width nearest-image clause not decided.', ref='§5 C02')
 NA = {}
 props = [json.loads(l) for l in open(os.path.join(V, 'properties.jsonl'))]
 checks = []; na = []
